@@ -34,8 +34,10 @@ Applies(part, v) == IsCont(v) /\ (part.pk = "mol" \/ (part.pk = "map" /\ v.k = "
 \* the condition a part evaluates on container v (MapOrListValue.filter combines on the fly)
 PartCond(part, v) == IF part.pk = "mol" THEN AndN(IF v.k = "list" THEN part.lcond ELSE part.mcond, part.cond)
                      ELSE part.cond
-\* outcomes of the children of v under part: <<>> when the part does not apply
-ChildOutcomes(part, v) == IF ~Applies(part, v) THEN <<>> ELSE Filter(PartCond(part, v), v)
+\* outcomes of the children of v under part: <<>> when the part does not apply - also when what it evaluates is a
+\* single key condition on a list or a single index condition on a mapping (a map-or-list part given such a condition
+\* in its generic slot): the library refuses that filter (Cond.tla Refused) and resolution takes the refusal as "no match"
+ChildOutcomes(part, v) == IF ~Applies(part, v) \/ Refused(PartCond(part, v), v) THEN <<>> ELSE Filter(PartCond(part, v), v)
 SelUnconstrained(part, v) == LET os == ChildOutcomes(part, v) IN \E i \in 1..Len(os) : os[i] = "U"
 \* 1-based positions of the selected children
 Sel(part, v) == LET os == ChildOutcomes(part, v) IN
